@@ -8,11 +8,11 @@ use std::hash::{Hash, Hasher};
 use std::sync::Arc;
 
 use crate::interp::{self, Program};
-use crate::rt::{self, Act, Exec, Gran, Mode, Pending, Status, Violation};
+use crate::rt::{self, Decision, Exec, Gran, Inner, Pending, Pool, Status, Violation};
 use crate::spec::{Target, World};
 use crate::world::{Arena, Store};
 
-#[derive(Clone, Debug)]
+#[derive(Clone, Debug, serde::Serialize, serde::Deserialize)]
 pub struct Cfg {
 	/// None = all interleavings
 	pub max_preemptions: Option<u32>,
@@ -100,8 +100,7 @@ fn h2(v: &impl Hash) -> (u64, u64) {
 	(a.finish(), b.finish())
 }
 
-fn snapshot(exec: &Exec, targets: &[Target<'_>], arena: &Arena, cfg: &Cfg) -> Snap {
-	let g = exec.lock();
+fn snapshot(g: &Inner, targets: &[Target<'_>], arena: &Arena, cfg: &Cfg) -> Snap {
 	let mut parts: Vec<u64> = vec![];
 	let mut enabled = vec![];
 	let mut all_finished = true;
@@ -206,200 +205,234 @@ fn order(enabled: &mut Vec<(u8, u16)>, last: Option<usize>) {
 	}
 }
 
-pub type StateHook<'h> = dyn FnMut(&Exec, &[Target<'_>]) -> Vec<Violation> + 'h;
+/// Extra invariant evaluated in every newly reached state.
+pub type StateHook = dyn Fn(&Inner, &[Target<'_>]) -> Vec<Violation> + Sync;
 
-/// Run one execution: replay `prefix`, then extend depth-first, calling back for every newly reached state.
-/// Returns new work items (alternative prefixes).
-#[allow(clippy::too_many_arguments)]
-fn run_one(
-	prog: &Program, cfg: &Cfg, prefix: &[(u8, u16)], seen: &mut HashSet<(u64, u64)>, outcomes: &mut HashSet<u64>, stats: &mut Stats, found: &mut Vec<Found>, work: &mut Vec<Vec<(u8, u16)>>,
-	sample: &mut Vec<(u8, u16)>, hook: &mut Option<&mut StateHook<'_>>,
-) -> Result<(), String> {
-	let arena = Arena::new();
-	let store = Store::new();
-	let world = World::new(&arena, &store);
-	let mut targets: Vec<Target<'_>> = vec![];
-	for s in &prog.specs {
-		match world.build(s) {
-			Some(t) => targets.push(t),
-			None => return Err(format!("target {:?} rejected by its checked constructor", s)),
-		}
+/// Search state of one program.
+pub struct Search<'p> {
+	pub prog: &'p Program,
+	pub cfg: &'p Cfg,
+	pub seen: HashSet<(u64, u64)>,
+	pub outcomes: HashSet<u64>,
+	pub stats: Stats,
+	pub found: Vec<Found>,
+	pub work: Vec<Vec<(u8, u16)>>,
+	pub sample: Vec<(u8, u16)>,
+	pub hook: Option<&'p StateHook>,
+	pub error: Option<String>,
+	// per-execution
+	prefix: Vec<(u8, u16)>,
+	pos: usize,
+	path: Vec<(u8, u16)>,
+	completing: bool,
+	completion_points: u32,
+}
+
+impl<'p> Search<'p> {
+	pub fn new(prog: &'p Program, cfg: &'p Cfg, hook: Option<&'p StateHook>) -> Self {
+		Search { prog, cfg, seen: HashSet::new(), outcomes: HashSet::new(), stats: Stats::default(), found: vec![], work: vec![vec![]], sample: vec![], hook, error: None, prefix: vec![], pos: 0, path: vec![], completing: false, completion_points: 0 }
 	}
-	let n = prog.threads.len();
-	let exec = Exec::new(cfg.gran, prog.policy, n, world.is_rw.borrow().clone());
-	exec.lock().lock_unit = world.unit.borrow().clone();
-	stats.executions += 1;
-	let mut result: Result<(), String> = Ok(());
-	let targets_ref = &targets;
-	std::thread::scope(|s| {
+
+	/// The scheduling decision at a quiescent point of the current execution.
+	fn decide(&mut self, g: &Inner, targets: &[Target<'_>], arena: &Arena) -> Decision {
+		let cfg = self.cfg;
+		// replaying the prefix
+		if self.pos < self.prefix.len() {
+			let (t, a) = self.prefix[self.pos];
+			if !g.thread_enabled(t as usize) {
+				self.error = Some(format!("replay divergence at step {} of {:?}: T{} not enabled", self.pos, self.prefix, t));
+				return Decision::Stop;
+			}
+			self.pos += 1;
+			if self.pos == self.prefix.len() {
+				self.stats.transitions += 1;
+			} else {
+				self.stats.replay_steps += 1;
+			}
+			return Decision::Run(t as usize, a);
+		}
+		let mut snap = snapshot(g, targets, arena, cfg);
+		if let Some(m) = snap.machinery {
+			self.error = Some(m);
+			return Decision::Stop;
+		}
+		if let Some(h) = self.hook {
+			snap.violations.extend(h(g, targets));
+		}
+		if !snap.violations.is_empty() {
+			for v in snap.violations {
+				if !self.found.iter().any(|f| f.violation.key == v.key && f.violation.prop == v.prop) {
+					self.found.push(Found { violation: v, schedule: self.path.clone() });
+				}
+			}
+			return Decision::Stop;
+		}
+		if !self.completing {
+			if !self.seen.insert(snap.key) {
+				return Decision::Stop;
+			}
+			self.stats.states += 1;
+			if self.stats.states as usize > cfg.state_cap {
+				self.stats.cap_hit = true;
+				return Decision::Stop;
+			}
+			if snap.any_blocked {
+				self.stats.blocked_states += 1;
+			}
+		}
+		self.stats.max_depth = self.stats.max_depth.max(self.path.len());
+		if snap.enabled.is_empty() {
+			if !snap.all_finished {
+				self.found.push(Found {
+					violation: Violation { prop: "C01", key: format!("deadlock|{}", self.prog.name), detail: format!("no thread is enabled but some are unfinished: {}", snap.unfinished.join("; ")) },
+					schedule: self.path.clone(),
+				});
+			} else {
+				self.stats.terminal += 1;
+				if self.outcomes.insert(snap.outcome_hash) {
+					self.stats.distinct_outcomes += 1;
+				}
+				if self.sample.is_empty() || self.path.len() > self.sample.len() {
+					self.sample = self.path.clone();
+				}
+			}
+			return Decision::Stop;
+		}
+		order(&mut snap.enabled, snap.last);
+		if snap.retry_exceeded && !self.completing {
+			self.completing = true;
+			self.stats.env_retry_cut += 1;
+		}
+		if self.completing {
+			// run-to-block: keep running the last thread while it is enabled, else lowest id
+			self.completion_points += 1;
+			if self.completion_points > cfg.horizon {
+				self.found.push(Found {
+					violation: Violation { prop: "C09", key: format!("livelock|{}", self.prog.name), detail: format!("run-to-block completion exceeded {} points: {}", cfg.horizon, snap.unfinished.join("; ")) },
+					schedule: self.path.clone(),
+				});
+				return Decision::Stop;
+			}
+			let c = snap.enabled[0];
+			self.path.push(c);
+			self.stats.transitions += 1;
+			if self.completion_points == 1 {
+				self.stats.completions += 1;
+			}
+			return Decision::Run(c.0 as usize, c.1);
+		}
+		// alternatives
+		for c in snap.enabled.iter().skip(1) {
+			if let Some(b) = cfg.max_preemptions {
+				let cost = if snap.last_enabled && snap.last != Some(c.0 as usize) { 1 } else { 0 };
+				if snap.preemptions + cost > b {
+					continue;
+				}
+			}
+			let mut p = self.path.clone();
+			p.push(*c);
+			self.work.push(p);
+		}
+		let c = snap.enabled[0];
+		if let Some(b) = cfg.max_preemptions {
+			let cost = if snap.last_enabled && snap.last != Some(c.0 as usize) { 1 } else { 0 };
+			if snap.preemptions + cost > b {
+				return Decision::Stop;
+			}
+		}
+		self.stats.transitions += 1;
+		self.path.push(c);
+		Decision::Run(c.0 as usize, c.1)
+	}
+
+	/// Run one execution: replay `prefix`, then extend depth-first.
+	fn run_one(&mut self, pool: &mut Pool, prefix: Vec<(u8, u16)>) {
+		let prog = self.prog;
+		let cfg = self.cfg;
+		let arena = Arena::new();
+		let store = Store::new();
+		let world = World::new(&arena, &store);
+		let mut targets: Vec<Target<'_>> = vec![];
+		for s in &prog.specs {
+			match world.build(s) {
+				Some(t) => targets.push(t),
+				None => {
+					self.error = Some(format!("target {:?} rejected by its checked constructor", s));
+					return;
+				}
+			}
+		}
+		let n = prog.threads.len();
+		let exec = Exec::new(cfg.gran, prog.policy, n, world.is_rw.borrow().clone());
+		exec.lock().lock_unit = world.unit.borrow().clone();
+		self.stats.executions += 1;
+		if !prefix.is_empty() {
+			self.stats.replays += 1;
+		}
+		self.path = prefix.clone();
+		self.prefix = prefix;
+		self.pos = 0;
+		self.completing = false;
+		self.completion_points = 0;
+		let targets_ref: &[Target<'_>] = &targets;
+		let arena_ref: &Arena = &arena;
+		{
+			let this: &mut Search<'p> = self;
+			// Arena/targets are only read by the decider; raw pointers make the closure Send.
+			struct Ptrs<'a, 'p>(*mut Search<'p>, &'a [Target<'a>], &'a Arena);
+			unsafe impl Send for Ptrs<'_, '_> {}
+			let ptrs = Ptrs(this as *mut _, targets_ref, arena_ref);
+			exec.set_decider(Box::new(move |g: &mut Inner| {
+				let p = &ptrs;
+				let s: &mut Search<'_> = unsafe { &mut *p.0 };
+				s.decide(g, p.1, p.2)
+			}));
+		}
+		let mut jobs: Vec<Box<dyn FnOnce() + Send + '_>> = vec![];
 		for tid in 0..n {
 			let e = exec.clone();
 			let steps = &prog.threads[tid];
-			std::thread::Builder::new()
-				.stack_size(256 * 1024)
-				.spawn_scoped(s, move || {
-					rt::run_logical(e, tid, || interp::run_thread(tid, steps, targets_ref));
-				})
-				.expect("spawn");
+			jobs.push(Box::new(move || {
+				rt::run_logical(e, tid, || interp::run_thread(tid, steps, targets_ref));
+			}));
 		}
-		let r = (|| -> Result<(), String> {
-			if !exec.wait_quiescent() {
-				return Err("watchdog: threads did not reach their start points".into());
+		let ok = pool.run(jobs, std::time::Duration::from_secs(30));
+		exec.clear_decider();
+		if !ok {
+			eprintln!("machinery: watchdog: a logical thread did not come back within 30 s (possible livelock inside the library) in program {} after schedule {:?}", prog.describe(), self.path);
+			std::process::exit(3);
+		}
+		if let Some(m) = exec.lock().machinery_error.clone() {
+			self.error.get_or_insert(m);
+		}
+		drop(targets);
+	}
+
+	pub fn run(&mut self, pool: &mut Pool) {
+		while let Some(prefix) = self.work.pop() {
+			self.run_one(pool, prefix);
+			if self.error.is_some() {
+				break;
 			}
-			// replay
-			for (i, (t, a)) in prefix.iter().enumerate() {
-				let en = {
-					let g = exec.lock();
-					g.thread_enabled(*t as usize)
-				};
-				if !en {
-					return Err(format!("replay divergence at step {} of {:?}: T{} not enabled", i, prefix, t));
-				}
-				if !exec.step(*t as usize, *a) {
-					return Err(format!("watchdog during replay at step {}", i));
-				}
-				if i + 1 == prefix.len() {
-					stats.transitions += 1;
-				} else {
-					stats.replay_steps += 1;
-				}
+			if (self.cfg.stop_at_first && !self.found.is_empty()) || self.stats.cap_hit {
+				break;
 			}
-			if !prefix.is_empty() {
-				stats.replays += 1;
-			}
-			let mut path: Vec<(u8, u16)> = prefix.to_vec();
-			let mut completing = false;
-			let mut completion_points = 0u32;
-			loop {
-				let mut snap = snapshot(&exec, targets_ref, &arena, cfg);
-				if let Some(m) = snap.machinery {
-					return Err(m);
-				}
-				if let Some(h) = hook.as_mut() {
-					let extra = h(&exec, targets_ref);
-					snap.violations.extend(extra);
-				}
-				if !snap.violations.is_empty() {
-					for v in snap.violations {
-						if !found.iter().any(|f| f.violation.key == v.key && f.violation.prop == v.prop) {
-							found.push(Found { violation: v, schedule: path.clone() });
-						}
-					}
-					return Ok(());
-				}
-				if !completing {
-					if !seen.insert(snap.key) {
-						return Ok(());
-					}
-					stats.states += 1;
-					if stats.states as usize > cfg.state_cap {
-						stats.cap_hit = true;
-						return Ok(());
-					}
-					if snap.any_blocked {
-						stats.blocked_states += 1;
-					}
-				}
-				stats.max_depth = stats.max_depth.max(path.len());
-				if snap.enabled.is_empty() {
-					if !snap.all_finished {
-						found.push(Found {
-							violation: Violation { prop: "C01", key: format!("deadlock|{}", prog.name), detail: format!("no thread is enabled but some are unfinished: {}", snap.unfinished.join("; ")) },
-							schedule: path.clone(),
-						});
-					} else {
-						stats.terminal += 1;
-						if outcomes.insert(snap.outcome_hash) {
-							stats.distinct_outcomes += 1;
-						}
-						if sample.is_empty() || path.len() > sample.len() {
-							*sample = path.clone();
-						}
-					}
-					return Ok(());
-				}
-				order(&mut snap.enabled, snap.last);
-				if snap.retry_exceeded && !completing {
-					completing = true;
-					stats.env_retry_cut += 1;
-				}
-				if completing {
-					// run-to-block: keep running the last thread while it is enabled, else lowest id
-					completion_points += 1;
-					if completion_points > cfg.horizon {
-						found.push(Found {
-							violation: Violation { prop: "C09", key: format!("livelock|{}", prog.name), detail: format!("run-to-block completion exceeded {} points: {}", cfg.horizon, snap.unfinished.join("; ")) },
-							schedule: path.clone(),
-						});
-						return Ok(());
-					}
-					let c = snap.enabled[0];
-					if !exec.step(c.0 as usize, c.1) {
-						return Err("watchdog during completion".into());
-					}
-					path.push(c);
-					stats.transitions += 1;
-					if completion_points == 1 {
-						stats.completions += 1;
-					}
-					continue;
-				}
-				// alternatives
-				for (i, c) in snap.enabled.iter().enumerate().skip(1) {
-					let _ = i;
-					if let Some(b) = cfg.max_preemptions {
-						let cost = if snap.last_enabled && snap.last != Some(c.0 as usize) { 1 } else { 0 };
-						if snap.preemptions + cost > b {
-							continue;
-						}
-					}
-					let mut p = path.clone();
-					p.push(*c);
-					work.push(p);
-				}
-				let c = snap.enabled[0];
-				if let Some(b) = cfg.max_preemptions {
-					let cost = if snap.last_enabled && snap.last != Some(c.0 as usize) { 1 } else { 0 };
-					if snap.preemptions + cost > b {
-						return Ok(());
-					}
-				}
-				if !exec.step(c.0 as usize, c.1) {
-					return Err(format!("watchdog: T{} did not reach a point (possible livelock inside the library) after {:?}", c.0, path));
-				}
-				stats.transitions += 1;
-				path.push(c);
-			}
-		})();
-		result = r;
-		exec.abort();
-	});
-	drop(targets);
-	result
+		}
+	}
+}
+
+thread_local! {
+	static POOL: std::cell::RefCell<Pool> = std::cell::RefCell::new(Pool::new());
 }
 
 pub fn explore(prog: &Program, cfg: &Cfg) -> Outcome {
 	explore_with(prog, cfg, None)
 }
 
-pub fn explore_with(prog: &Program, cfg: &Cfg, mut hook: Option<&mut StateHook<'_>>) -> Outcome {
-	let mut seen = HashSet::new();
-	let mut outcomes = HashSet::new();
-	let mut stats = Stats::default();
-	let mut found = vec![];
-	let mut work: Vec<Vec<(u8, u16)>> = vec![vec![]];
-	let mut sample = vec![];
-	let mut machinery = None;
-	while let Some(prefix) = work.pop() {
-		if let Err(e) = run_one(prog, cfg, &prefix, &mut seen, &mut outcomes, &mut stats, &mut found, &mut work, &mut sample, &mut hook) {
-			machinery = Some(e);
-			break;
-		}
-		if (cfg.stop_at_first && !found.is_empty()) || stats.cap_hit {
-			break;
-		}
-	}
-	Outcome { stats, found, machinery, sample_schedule: sample }
+pub fn explore_with(prog: &Program, cfg: &Cfg, hook: Option<&StateHook>) -> Outcome {
+	let mut s = Search::new(prog, cfg, hook);
+	POOL.with(|p| s.run(&mut p.borrow_mut()));
+	Outcome { stats: s.stats, found: s.found, machinery: s.error, sample_schedule: s.sample }
 }
 
 /// Replay a single schedule with tracing on; returns the trace lines and violations.
@@ -413,33 +446,54 @@ pub fn replay(prog: &Program, cfg: &Cfg, schedule: &[(u8, u16)]) -> Result<(Vec<
 	}
 	let n = prog.threads.len();
 	let exec: Arc<Exec> = Exec::new(cfg.gran, prog.policy, n, world.is_rw.borrow().clone());
+	exec.lock().lock_unit = world.unit.borrow().clone();
 	exec.lock().keep_trace = true;
-	let targets_ref = &targets;
-	let mut out = Ok(());
-	std::thread::scope(|s| {
-		for tid in 0..n {
-			let e = exec.clone();
-			let steps = &prog.threads[tid];
-			s.spawn(move || rt::run_logical(e, tid, || interp::run_thread(tid, steps, targets_ref)));
-		}
-		out = (|| {
-			if !exec.wait_quiescent() {
-				return Err("watchdog at start".to_string());
-			}
-			for (i, (t, a)) in schedule.iter().enumerate() {
-				if !exec.lock().thread_enabled(*t as usize) {
-					return Err(format!("schedule step {}: T{} not enabled", i, t));
+	let targets_ref: &[Target<'_>] = &targets;
+	let arena_ref: &Arena = &arena;
+	let mut pos = 0usize;
+	let mut err: Option<String> = None;
+	let mut final_lines: Vec<String> = vec![];
+	{
+		struct Ptrs<'a>(*mut usize, *mut Option<String>, *mut Vec<String>, &'a [Target<'a>], &'a Arena);
+		unsafe impl Send for Ptrs<'_> {}
+		let ptrs = Ptrs(&mut pos, &mut err, &mut final_lines, targets_ref, arena_ref);
+		let sched = schedule.to_vec();
+		let cfg2 = cfg.clone();
+		exec.set_decider(Box::new(move |g: &mut Inner| {
+			let p = &ptrs;
+			let pos: &mut usize = unsafe { &mut *p.0 };
+			if *pos < sched.len() {
+				let (t, a) = sched[*pos];
+				if !g.thread_enabled(t as usize) {
+					unsafe { *p.1 = Some(format!("schedule step {}: T{} not enabled", *pos, t)) };
+					return Decision::Stop;
 				}
-				if !exec.step(*t as usize, *a) {
-					return Err(format!("watchdog at step {}", i));
-				}
+				*pos += 1;
+				return Decision::Run(t as usize, a);
 			}
-			Ok(())
-		})();
-		exec.abort();
-	});
-	out?;
-	let snap = snapshot(&exec, targets_ref, &arena, cfg);
+			let snap = snapshot(g, p.3, p.4, &cfg2);
+			if snap.enabled.is_empty() && !snap.all_finished {
+				unsafe { (*p.2).push(format!("DEADLOCK: {}", snap.unfinished.join("; "))) };
+			} else if snap.all_finished {
+				unsafe { (*p.2).push("all threads finished".to_string()) };
+			}
+			Decision::Stop
+		}));
+	}
+	let mut jobs: Vec<Box<dyn FnOnce() + Send + '_>> = vec![];
+	for tid in 0..n {
+		let e = exec.clone();
+		let steps = &prog.threads[tid];
+		jobs.push(Box::new(move || rt::run_logical(e, tid, || interp::run_thread(tid, steps, targets_ref))));
+	}
+	let ok = POOL.with(|p| p.borrow_mut().run(jobs, std::time::Duration::from_secs(30)));
+	exec.clear_decider();
+	if !ok {
+		return Err("watchdog".into());
+	}
+	if let Some(e) = err {
+		return Err(e);
+	}
 	let g = exec.lock();
 	let mut lines = vec![];
 	for e in &g.trace {
@@ -450,9 +504,6 @@ pub fn replay(prog: &Program, cfg: &Cfg, schedule: &[(u8, u16)]) -> Result<(Vec<
 			rt::EvKind::Note(s) => format!("T{} note: {}", e.tid, s),
 		});
 	}
-	if snap.enabled.is_empty() && !snap.all_finished {
-		lines.push(format!("DEADLOCK: {}", snap.unfinished.join("; ")));
-	}
-	let _ = (Act::Lock, Mode::Excl);
+	lines.extend(final_lines);
 	Ok((lines, g.violations.clone()))
 }
